@@ -421,7 +421,7 @@ def cli_part(chk, scratch, n_pairs):
             # polyA-rich data with multi-mapped reads: the polyA share decides whether model construction requires tails, and
             # multi-mapped reads take another path through the saved files than uniquely mapped ones
             from vlib import world2
-            w = world2.rich_world(seed, n_chroms=3, genes_per_chrom=3, polya_frac=0.97, hidden_cov=6, unmapped=0, extra_len=32000,
+            w = world2.rich_world(seed, n_chroms=3, genes_per_chrom=3, polya_frac=0.97, hidden_cov=6, unmapped=4, extra_len=32000,
                                   read_modes=("full", "full", "full", "trunc5"))
         else:
             w = world.standard_world(seed, n_chroms=2, genes_per_chrom=4, hidden=True, chrom_len=100000)
